@@ -186,3 +186,54 @@ _gfm = _GFM(CW + 'CSVWMetadata.get_fields_metadata', props=['C16'], params={}, s
 REGISTRY[_gfm.ident] = _gfm
 _gfm.abstraction = ('one column description per path (7 declared types x 4 spellings of type / format x 3 spellings of '
                     'titles); the format text is symbolic; the date-format translation is an uninterpreted function')
+
+
+# ---------------------------------------------------------------------------
+# CSVWMetadata.process_dialect (C16): delimiter, encoding and the number of header rows, for every way the dialect can
+# spell the presence of a header (header absent / true / false x headerRowCount absent / 0 / 1 / 2).  CSVW defaults:
+# header true, one header row.
+# ---------------------------------------------------------------------------
+
+def _pd_view(it):
+    mod = extract.load_module('tdda/serial/csvw.py')
+    header = [Ellipsis, True, False][it.path.choose([True, True, True])]
+    count = [Ellipsis, 0, 1, 2][it.path.choose([True, True, True, True])]
+    dialect = {}
+    delim = it.fresh(T.union(T.none, T.str), 'delimiter')
+    enc = it.fresh(T.union(T.none, T.str), 'encoding')
+    if delim is not None:
+        dialect['delimiter'] = delim
+    if enc is not None:
+        dialect['encoding'] = enc
+    if header is not Ellipsis:
+        dialect['header'] = header
+    if count is not Ellipsis:
+        dialect['headerRowCount'] = count
+    it.ghost['dialect'] = dict(header=header, count=count, delimiter=delim, encoding=enc)
+    o = SObj('CSVWMetadata', {'_dialect': dialect, '__open__': True}, label='self')
+    o.repo_class = mod.classes['CSVWMetadata']
+    o.methods['get_val'] = Builtin(lambda it2, self, d, k, **kw: d.get(k, None), 'get_val')
+    o.methods['warn'] = Builtin(lambda it2, self, *a: None, 'warn')
+    return o
+
+
+@specfn
+def dialect_read_as_documented(it, selfobj):
+    g = it.ghost['dialect']
+    if g['header'] is False:
+        want = 0
+    elif g['count'] is not Ellipsis:
+        want = g['count']
+    else:
+        want = 1
+    a = selfobj.attrs
+    return (a.get('header_rows') == want and a.get('delimiter') is g['delimiter'] and a.get('encoding') is g['encoding'])
+
+
+_pdc = Contract(CW + 'CSVWMetadata.process_dialect', props=['C16'], params={}, self_view=_pd_view,
+                spec_env=dict(PRIMS, dialect_read_as_documented=dialect_read_as_documented), result=T.none,
+                inline=['tdda/utils.py::nvl'],
+                requires=[],
+                ensures=[('header-rows-delimiter-and-encoding-as-the-dialect-says',
+                          'dialect_read_as_documented(self)')])
+REGISTRY[_pdc.ident] = _pdc
